@@ -102,6 +102,14 @@ def gen_fasta(rng, n):
                         "kind": kind, "seq": gen_seq(rng, kind, 1), "as_rna": kind != "prot_stop" and rng.random() < 0.2})
             if ops[-1]["k"] not in keys:
                 keys.append(ops[-1]["k"])
+        elif r < 0.92:
+            kind = rng.choice(["nuc", "nuc_amb", "prot_stop"])
+            k = rng.randint(1, 4)
+            ops.append({"op": "typed_seqs", "kind": kind, "names": [f"multi{i}" for i in range(k)],
+                        "seqs": [gen_seq(rng, kind, 1) for _ in range(k)]})
+            for nme in ops[-1]["names"]:
+                if nme not in keys:
+                    keys.append(nme)
         elif r < 0.95:
             kind = rng.choice(["nuc", "prot"])
             k = rng.randint(2, 4)
@@ -171,11 +179,20 @@ def gen_fastq(rng, n):
                 s, q = entry()
                 items.append([rng.choice(ids) + str(i), s, q])
             ops.append({"op": "write_iter", "medium": rng.choice(MEDIA), "items": items, "cpl": rng.choice([None, 1, 3, 60])})
-        elif r < 0.93:
+        elif r < 0.90:
             s, q = entry()
             ops.append({"op": "typed_seq", "k": rng.choice(ids), "seq": s, "scores": q, "as_rna": rng.random() < 0.2})
             if ops[-1]["k"] not in keys:
                 keys.append(ops[-1]["k"])
+        elif r < 0.93:
+            items = []
+            for i in range(rng.randint(1, 3)):
+                s, q = entry()
+                items.append([f"multi{i}", s, q])
+            ops.append({"op": "typed_seqs", "items": items})
+            for it in items:
+                if it[0] not in keys:
+                    keys.append(it[0])
         else:
             s, q = entry(2)
             ops.append({"op": "bad", "what": "length_mismatch", "k": rng.choice(ids), "seq": s, "scores": q[:-1]})
@@ -646,6 +663,32 @@ class FastaSim(Base):
         self.res.stats["probe:typed-roundtrip"] += 1
         return "ok"
 
+    def op_typed_seqs(self, op):
+        from biotite.sequence import NucleotideSequence, ProteinSequence
+        from biotite.sequence.io import fasta
+
+        seqs = {n: self.make_seq(op["kind"], s) for n, s in zip(op["names"], op["seqs"])}
+        st, v = call(fasta.set_sequences, self.file, seqs)
+        if st == "exc":
+            self.fail("typed:set_sequences-raised", got=exc_name(v), msg=str(v)[:200])
+        for n, s_ in zip(op["names"], op["seqs"]):
+            self.model[n] = s_
+        self.mutations += 1
+        self.invariants("typed_seqs")
+        f2 = self.F(chars_per_line=self.cfg["cpl"])
+        fasta.set_sequences(f2, seqs)
+        st, new = call(self.through, "memory", f2.write, self.F.read, ".fasta")
+        typ = ProteinSequence if op["kind"].startswith("prot") else NucleotideSequence
+        st2, back = call(fasta.get_sequences, new, typ) if st == "ok" else ("exc", new)
+        if st2 == "exc":
+            self.fail("typed:get_sequences-raised", got=exc_name(back), msg=str(back)[:200])
+        got = [(k, str(x)) for k, x in back.items()]
+        if got != list(zip(op["names"], op["seqs"])):
+            self.fail("typed:sequences-changed", got=[(k, x[:30]) for k, x in got], expected=[(k, x[:30]) for k, x in zip(op["names"], op["seqs"])])
+        self.readbacks += 1
+        self.res.stats["probe:typed-roundtrip"] += 1
+        return "ok"
+
     def op_typed_alignment(self, op):
         import random
 
@@ -852,6 +895,33 @@ class FastqSim(Base):
         s2, q2 = back
         if str(s2) != op["seq"] or [int(x) for x in q2] != list(op["scores"]):
             self.fail("typed:sequence-changed", got=str(s2)[:80], expected=op["seq"][:80])
+        self.readbacks += 1
+        self.res.stats["probe:typed-roundtrip"] += 1
+        return "ok"
+
+    def op_typed_seqs(self, op):
+        from biotite.sequence import NucleotideSequence
+        from biotite.sequence.io import fastq
+
+        d = {}
+        for k, s_, q in op["items"]:
+            d[k] = (NucleotideSequence(s_, ambiguous=any(c not in "ACGT" for c in s_)), np.array(q, dtype=int))
+        st, v = call(fastq.set_sequences, self.file, d)
+        if st == "exc":
+            self.fail("typed:set_sequences-raised", got=exc_name(v), msg=str(v)[:200])
+        for k, s_, q in op["items"]:
+            self.model[k] = (s_, list(q))
+        self.mutations += 1
+        self.invariants("typed_seqs")
+        f2 = self.F(self.off, chars_per_line=self.cfg["cpl"])
+        fastq.set_sequences(f2, d)
+        st, new = call(self.through, "memory", f2.write, lambda src: self.F.read(src, self.off), ".fastq")
+        st2, back = call(fastq.get_sequences, new) if st == "ok" else ("exc", new)
+        if st2 == "exc":
+            self.fail("typed:get_sequences-raised", got=exc_name(back), msg=str(back)[:200])
+        got = [(k, str(x[0]), [int(y) for y in x[1]]) for k, x in back.items()]
+        if got != [(k, s_, list(q)) for k, s_, q in op["items"]]:
+            self.fail("typed:sequences-changed", got=[(k, x[:30]) for k, x, _ in got])
         self.readbacks += 1
         self.res.stats["probe:typed-roundtrip"] += 1
         return "ok"
